@@ -145,6 +145,23 @@ func runC05(p *core.Prog, r *core.Report, tier string) {
 		}
 	}
 	r.Floor("C05.b RANDAO sign sites", nR, 1)
+	// the reveal a duty carries is the one signed for that duty in this call: every value that can reach
+	// SetRandaoReveal is the result of SignRANDAOReveal (not a remembered signature of another validator)
+	nSet := 0
+	for _, f := range fns {
+		for _, ci := range core.CallsNamed(f, "SetRandaoReveal") {
+			args := ci.Common().Args
+			v := args[len(args)-1]
+			for li, lf := range core.PhiLeaves(v, ci.(ssa.Instruction)) {
+				nSet++
+				d := ds.D(lf.V)
+				ok := d.MentionsCall("SignRANDAOReveal")
+				r.Check(ok, "C05.b", fmt.Sprintf("randao|reveal-signed-for-this-duty#%d", li+1), p.Pos(ci.Pos()), "the reveal set on the duty is the result of SignRANDAOReveal in this call",
+					"the RANDAO reveal set on the duty can be "+d.String()+", which is not the signature obtained for this duty's validator in this call (e.g. a reveal remembered per epoch): the proposal carries another validator's reveal")
+			}
+		}
+	}
+	r.Floor("C05.b RANDAO reveal assignments", nSet, 1)
 
 	// ---- (c) signed containers ----
 	nLit := 0
@@ -426,7 +443,87 @@ func paramIndexOfValueName(f *ssa.Function, name string) int {
 
 // checkUnblinder: the unblinding helper returns a nil error only on the select arm that received a relay
 // response; Blinded is cleared and the content replaced only there, from the received value.
+// checkSemaphoreProbes: a tested TryAcquire ("has anybody else finished yet?") is a probe: on the edge on which it
+// succeeded the permit is given back before the goroutine probes again, claims the semaphore for good, or ends.
+// A probe that keeps the permit on an error path makes every later probe of every goroutine read "somebody has
+// already responded", and the full block that then arrives is thrown away.
+func checkSemaphoreProbes(p *core.Prog, r *core.Report, ds *core.Describer, rule string, f *ssa.Function) int {
+	n := 0
+	for _, wf := range core.WithClosures(f) {
+		var tries, releases []ssa.Instruction
+		core.EachInstr(wf, func(in ssa.Instruction) {
+			ci, ok := in.(ssa.CallInstruction)
+			if !ok {
+				return
+			}
+			callee := ci.Common().StaticCallee()
+			if callee == nil || callee.Signature.Recv() == nil || !strings.HasSuffix(callee.Signature.Recv().Type().String(), "semaphore.Weighted") {
+				return
+			}
+			switch callee.Name() {
+			case "TryAcquire":
+				tries = append(tries, in)
+			case "Release":
+				releases = append(releases, in)
+			}
+		})
+		for _, t := range tries {
+			call, ok := t.(*ssa.Call)
+			if !ok || call.Referrers() == nil {
+				continue
+			}
+			tested := false
+			for _, ref := range *call.Referrers() {
+				switch ref.(type) {
+				case *ssa.If, *ssa.UnOp:
+					tested = true
+				}
+			}
+			if !tested {
+				continue // the final claim
+			}
+			n++
+			failed := guardEdges(ds, wf, func(c core.Cond) int {
+				if c.B == nil || c.B.Val != ssa.Value(call) {
+					return -1
+				}
+				if c.BoolOnEdge(0) {
+					return 1
+				}
+				return 0
+			})
+			w := core.PathQuery{Fn: wf, From: t, Target: func(x ssa.Instruction) bool {
+				if core.IsReturn(x) {
+					return true
+				}
+				for _, o := range tries {
+					if x == o {
+						return true
+					}
+				}
+				return false
+			}, Avoid: func(x ssa.Instruction) bool {
+				for _, rl := range releases {
+					if x == rl {
+						return true
+					}
+				}
+				return false
+			}, Edge: func(b *ssa.BasicBlock, succ int) bool {
+				if sx, ok := failed[b]; ok && sx == succ {
+					return false
+				}
+				return true
+			}}.Find()
+			r.Check(w == nil, rule, fmt.Sprintf("%s|probe#%d|permit-returned", core.FnKey(wf), n), p.Pos(t.Pos()), "a successful probe of the semaphore gives the permit back on every path",
+				"after this probe succeeded the goroutine can probe again, claim the semaphore or end without having released the permit: from then on every relay's probe reads 'another relay has already responded' and the full block is discarded", p.WitnessText(w)...)
+		}
+	}
+	return n
+}
+
 func checkUnblinder(p *core.Prog, r *core.Report, ds *core.Describer, f *ssa.Function) {
+	checkSemaphoreProbes(p, r, ds, "C05.e", f)
 	var sel *ssa.Select
 	core.EachInstr(f, func(in ssa.Instruction) {
 		if s, ok := in.(*ssa.Select); ok && s.Blocking {
